@@ -183,3 +183,42 @@ func VerifNumberToBits() {
 	}
 	vrt.Assert(val == x, "number to bits: big-endian value")
 }
+
+// VerifBinaryPadArray: a zero padded binary (what x|tobits(n) / x|tobytes(n)
+// produce) as a later member of a binary array: the array's bits are the first
+// member's bits, then exactly pad zero bits, then the member's own bits -
+// whatever the destination buffers held before.
+func VerifBinaryPadArray() {
+	a, asrc, astart, an, _ := zzBin("a", 3)
+	bsrc := vrt.Bytes("b", 2)
+	bn := int64([]int{1, 4, 8, 11}[vrt.Choice("b.len", 4)])
+	padTo := int64([]int{3, 4, 8, 12}[vrt.Choice("padTo", 4)])
+	pad := (padTo - bn%padTo) % padTo
+	var in0 ToBinary = Binary{br: bitio.NewBitReader(bsrc, -1), r: ranges.Range{Start: 0, Len: bn}, unit: 1}
+	pv := (*Interp)(nil)._toBits(in0, toBitsOpts{Unit: 1, PadToUnits: int(padTo)})
+	b, isBin := pv.(Binary)
+	vrt.Assert(isBin && b.r.Len == pad+bn, "tobits(n): length is padded up to a multiple of n")
+	if !isBin {
+		return
+	}
+	br, err := toBitReaderEx([]any{a, b}, false)
+	vrt.Assert(err == nil, "binary array with a padded member is a binary")
+	if err != nil {
+		return
+	}
+	total := an + pad + bn
+	buf := vrt.Bytes("stale", 8) // destination with arbitrary stale content
+	got, rerr := bitio.ReadAtFull(br, buf, total, 0)
+	vrt.Assert(rerr == nil && got == total, "padded array: length is the sum of the parts and the padding")
+	vrt.Assert(zzSameBits(buf, an, 0, asrc, astart), "padded array: first member's bits")
+	var padBits uint64
+	for i := int64(0); i < pad; i++ {
+		padBits |= bitio.ZZRefBit(buf, an+i)
+	}
+	vrt.Assert(padBits == 0, "padded array: padding bits are zero")
+	var diff uint64
+	for i := int64(0); i < bn; i++ {
+		diff |= bitio.ZZRefBit(buf, an+pad+i) ^ bitio.ZZRefBit(bsrc, i)
+	}
+	vrt.Assert(diff == 0, "padded array: padded member's own bits follow the padding")
+}
